@@ -175,7 +175,7 @@ static void efc_block(mjModel* m, mjData* d) {
   pd("eq_data", m->eq_data, mjNEQDATA * m->neq); p1("neqdata", mjNEQDATA);
   pi("jnt_qposadr", m->jnt_qposadr, m->njnt); pi("jnt_dofadr", m->jnt_dofadr, m->njnt); pd("qpos", d->qpos, nq); pd("qpos0", m->qpos0, nq);
   pd("ten_length", d->ten_length, m->ntendon); pd("tendon_length0", m->tendon_length0, m->ntendon);
-  pi("jnt_type", m->jnt_type, m->njnt); pi("dof_jntid", m->dof_jntid, nv); p1("cone", m->opt.cone);
+  pi("jnt_type", m->jnt_type, m->njnt); pi("dof_jntid", m->dof_jntid, nv); p1("cone", m->opt.cone); pd("jnt_range", m->jnt_range, 2 * m->njnt);
   { int* ci = (int*)calloc(4 * d->ncon + 4, sizeof(int));
     for (int c = 0; c < d->ncon; c++) { ci[4*c] = m->geom_type[d->contact[c].geom[0]]; ci[4*c+1] = m->geom_type[d->contact[c].geom[1]]; ci[4*c+2] = d->contact[c].dim; ci[4*c+3] = d->contact[c].efc_address; }
     pi("contact_info", ci, 4 * d->ncon); free(ci); }
